@@ -74,7 +74,7 @@ func killClass(r *crash.Run) string {
 func hookKillScenario(c *sup.Ctx, r *rng.R) {
 	hist := uint64(c.Local % 12)
 	point := crashPoints[(c.Local/12)%len(crashPoints)]
-	run := &crash.Run{Tmp: c.Tmp, Writer: crash.WriterArgs{Seed: c.Seed*1000 + hist, Ops: 25, Point: point, Nth: 1 + r.Intn(40)}, Reader: crash.ReaderArgs{Mode: 2 - 2*(c.Local%2), NewWrites: 2}}
+	run := &crash.Run{Tmp: c.Tmp, Writer: crash.WriterArgs{Seed: c.Seed*1000 + hist, Ops: 25, Point: point, Nth: 1 + r.Intn(40)}, Reader: crash.ReaderArgs{Mode: 2 - 2*(c.Local%2), NewWrites: 2, TryCreateNew: c.Local%5 == 3}}
 	o := run.Execute()
 	reportCrash(c, run, &o)
 }
@@ -132,7 +132,7 @@ func straceKillScenario(c *sup.Ctx, r *rng.R) {
 }
 
 func controlScenario(c *sup.Ctx, r *rng.R) {
-	run := &crash.Run{Tmp: c.Tmp, Writer: crash.WriterArgs{Seed: c.Seed*1000 + uint64(c.Local), Ops: 20}, Reader: crash.ReaderArgs{Mode: 2 - 2*(c.Local%2), NewWrites: 1}}
+	run := &crash.Run{Tmp: c.Tmp, Writer: crash.WriterArgs{Seed: c.Seed*1000 + uint64(c.Local), Ops: 20}, Reader: crash.ReaderArgs{Mode: 2 - 2*(c.Local%2), NewWrites: 1, TryCreateNew: (c.Local/3)%2 == 0}}
 	switch c.Local % 3 {
 	case 0:
 		run.Writer.Clean = true
